@@ -11,7 +11,7 @@ RULE = ('seeded random scenarios: 2-8 component/processor classes in inheritance
         'lists/objects, exact references ${..} $res{..} $handle{..}, near-misses, marker-prefixed strings '
         'with trailing text / inner braces / newlines and unresolvable references; loaded as a JSON file '
         'by a WorldFromFileHandle (in the tree or free-standing), as a dictionary through a WorldHandle, '
-        'or with populate_world_from_dict on a World; in a third of the clean file scenarios 1-3 further loads of the same file against the same tree (world handle cleared and called again, or a second WorldFromFileHandle) with resource handles cleared and replaced in between, resolved values named by handle id and load counter; in about a tenth of the handle scenarios a load that fails part-way (a $res{} target that is put into the tree only later, constructors raising on scripted calls, unknown names) followed by further handle() calls with or without the cause repaired; plus 1-4 strings per scenario matched by the three '
+        'or with populate_world_from_dict on a World; in a third of the clean file scenarios 1-3 further loads of the same file against the same tree (world handle cleared and called again, or a second WorldFromFileHandle) with resource handles cleared and replaced in between, resolved values named by handle id and load counter; in about a tenth of the handle scenarios a load that fails part-way (a $res{} target that is put into the tree only later, constructors raising on scripted calls, unknown names) followed by further handle() calls with or without the cause repaired; in a third of the file scenarios a second, bigger tree with resources under the same paths into which the map holding the world handle is mounted / moved / unmounted between loads; in about a seventh of the clean handle scenarios scripted reactions of listed components / processors (on_add, on_world_load, other events) that suspend and resume dispatching, create entities, add / remove components and dispatch events while the postponed events are delivered (the model follows the receiver order of the implementation, given as hints that it validates; the world is dumped again afterwards); plus 1-4 strings per scenario matched by the three '
         'regular expressions of desper and by the model, and every string marker+w with w over {$ { } a . \\n} '
         'up to length 3 (quick) / 5 (thorough).  Non-trivial: the load succeeded and built at '
         'least one instance; distinct by hash of the scenario text.')
@@ -64,6 +64,10 @@ def stats(scenarios, impl_obs):
         c['callbacks'] += sum(1 for o in obs if o.startswith('cb '))
         c['rx_lines'] += sum(1 for o in obs if o.startswith('rx '))
         c['further_loads'] += sum(1 for o in obs if o.startswith('load '))
+        c['mount_steps'] += sum(1 for ln in s if ln.startswith('step mount') or ln.startswith('step unmount'))
+        c['reaction_lines'] += sum(1 for ln in s if ln.startswith('react '))
+        c['spawned_instances_attached'] += sum(o.count(':C') for o in obs if o.startswith('post-ent ') and 'x' in o)
+        c['re_enabled'] += sum(int(o.split()[1]) for o in obs if o.startswith('re-enabled '))
         res = [o for o in obs if o.startswith('res ')]
         c['ok_after_failed_load'] += sum(1 for a, b in zip(res, res[1:]) if a.startswith('res raised') and b == 'res ok')
         c['same_world_calls'] += res.count('res same-world')
